@@ -1164,6 +1164,21 @@ func (w *worker) runCombine(ctx context.Context, task *Task, taskStats *stats.Ma
 	defer func() {
 		w.mu.Lock()
 		w.combinerStates[combineKey]--
+		if err != nil && task.CombineKey == "" && w.combinerStates[combineKey] == combinerIdle {
+			// This attempt failed, possibly after combining part of its
+			// input into the task's own combine buffers. Drop them: a retry
+			// must start from empty buffers, or rows are combined twice.
+			stale := w.combiners[combineKey]
+			delete(w.combiners, combineKey)
+			w.combinerStates[combineKey] = combinerNone
+			w.mu.Unlock()
+			for _, c := range stale {
+				if discardErr := (<-c).Discard(); discardErr != nil {
+					log.Error.Printf("error discarding combiner: %v", discardErr)
+				}
+			}
+			return
+		}
 		w.mu.Unlock()
 		if err == nil && task.CombineKey == "" {
 			taskWriteDuration := taskStats.Int("writeDuration")
